@@ -183,6 +183,9 @@ func genC17(r *rng.R, tier string, steer bool, idx int) *trace.Trace {
 	useCorpus := mode != "writefault" && r.Chance(0.35)
 	if useCorpus {
 		files := Corpus(256 << 10)
+		if tier == "thorough" {
+			files = Corpus(1 << 20)
+		}
 		base := rng.Pick(r, files)
 		for tries := 0; tries < 20 && HasHugeDataset(base); tries++ {
 			base = rng.Pick(r, files)
